@@ -90,7 +90,7 @@ type Play struct {
 	PolicyName string
 	DeckName   string
 	HandTopups map[string]int64 // accepted top-ups while the current hand runs
-	ovCollect  func()           // pending outcome of a top-up that overlaps the open (see Churn.OverlapOpen)
+	ovCollect  func(opened *pt.Table) // pending outcome of a top-up that overlaps the open (see Churn.OverlapOpen); opened = the opened snapshot, if seen
 	midOps     int
 }
 
@@ -126,7 +126,7 @@ func (p *Play) RefusedResponses() []h.ActRec {
 
 func (p *Play) bankrollNow(id string) (int64, bool) {
 	t := p.tableNow()
-	if i := t.FindPlayerIdx(id); i >= 0 {
+	if i := h.PlayerIdx(t, id); i >= 0 {
 		return t.State.PlayerStates[i].Bankroll, true
 	}
 	return 0, false
@@ -160,7 +160,7 @@ func (p *Play) LazyBuyIn(phase string, seat int, chips int64) (string, bool) {
 	for time.Since(t0) < 24*time.Second {
 		time.Sleep(250 * time.Millisecond)
 		t := p.tableNow()
-		if i := t.FindPlayerIdx(op.ID); i >= 0 && t.State.PlayerStates[i].IsIn {
+		if i := h.PlayerIdx(t, op.ID); i >= 0 && t.State.PlayerStates[i].IsIn {
 			p.record(OpRec{Kind: "auto-joined", ID: op.ID, Phase: phase}, nil)
 			return op.ID, true
 		}
@@ -264,7 +264,7 @@ func (p *Play) seatedIDs() []string {
 
 func (p *Play) isParticipant(id string) bool {
 	t := p.tableNow()
-	return t.FindGamePlayerIdx(id) >= 0
+	return h.GameIdx(t, id) >= 0
 }
 
 // betweenOps applies a few random membership operations at a between-hands point.
@@ -364,7 +364,7 @@ func (p *Play) betweenOps(phase string) {
 			joins := []pt.JoinPlayer{}
 			fs := append([]int{}, free...)
 			for _, id := range leaves {
-				if i := t.FindPlayerIdx(id); i >= 0 {
+				if i := h.PlayerIdx(t, id); i >= 0 {
 					fs = append(fs, t.State.PlayerStates[i].Seat)
 				}
 			}
@@ -435,7 +435,7 @@ func (p *Play) midOp() {
 	t := p.tableNow()
 	var parts, others []string
 	for _, ps := range t.State.PlayerStates {
-		if t.FindGamePlayerIdx(ps.PlayerID) >= 0 {
+		if h.GameIdx(t, ps.PlayerID) >= 0 {
 			parts = append(parts, ps.PlayerID)
 		} else {
 			others = append(others, ps.PlayerID)
@@ -605,7 +605,7 @@ func RunPlayCfg(c *h.Ctx, cfg h.TableCfg, po PlayOpts, mon *PlayMon) *Play {
 	onEv := func(e *h.Ev) {
 		if f := p.ovCollect; f != nil && e.Kind == h.EvTable && e.T != nil && e.T.State.Status == pt.TableStateStatus_TableGameOpened {
 			p.ovCollect = nil
-			f()
+			f(e.T)
 		}
 		if mon.OnEvent != nil {
 			mon.OnEvent(p, e)
@@ -709,13 +709,23 @@ func RunPlayCfg(c *h.Ctx, cfg h.TableCfg, po PlayOpts, mon *PlayMon) *Play {
 						ovCh <- ss.S.Redeem(ovID, ovChips)
 					}
 				}()
-				p.ovCollect = func() {
+				p.ovCollect = func(opened *pt.Table) {
 					select {
 					case err := <-ovCh:
 						if err == nil {
+							// did it land before the open (the opened snapshot already shows it) or after (a top-up while
+							// the hand runs)?
+							before := false
+							if opened != nil {
+								if i := h.PlayerIdx(opened, ovID); i >= 0 && opened.State.PlayerStates[i].Bankroll == p.Exp[ovID]+ovChips {
+									before = true
+								}
+							}
 							p.Exp[ovID] += ovChips
 							p.In += ovChips
-							p.HandTopups[ovID] += ovChips
+							if !before {
+								p.HandTopups[ovID] += ovChips
+							}
 							c.Feature("top-up-overlapping-the-open")
 						}
 						p.record(OpRec{Kind: ovKind, ID: ovID, Chips: ovChips, Phase: "mid"}, err)
@@ -730,7 +740,7 @@ func RunPlayCfg(c *h.Ctx, cfg h.TableCfg, po PlayOpts, mon *PlayMon) *Play {
 		p.CurHand = hd
 		if f := p.ovCollect; f != nil {
 			p.ovCollect = nil
-			f()
+			f(nil)
 		}
 		if p.StopNow && hd.Settled == nil {
 			return p
@@ -767,7 +777,7 @@ func RunPlayCfg(c *h.Ctx, cfg h.TableCfg, po PlayOpts, mon *PlayMon) *Play {
 			// resume like the competition layer does: set the next hand up explicitly
 			t := p.tableNow()
 			ids := p.smLive()
-			if len(ids) < 2 || len(t.AlivePlayers()) < t.Meta.TableMinPlayerCount {
+			if len(ids) < 2 || h.AliveCount(t) < t.Meta.TableMinPlayerCount {
 				return p
 			}
 			parts := map[string]int{}
